@@ -120,10 +120,49 @@ def judge_rt(res):
     return bad
 
 
+def base64_stage(ctx, ths):
+    """pbase64.h codec + the printer's chunk loop + the parser's base64 field scanner: C vs Base64.lean, and the round-trip
+    property evaluated on the implementation alone (C encode -> C parse == input) for the replay."""
+    gen = os.path.join(VERIF, "tools", "gen_b64.py")
+    h1 = build_harness(ctx, "h_b64", [os.path.join(VERIF, "harness/h_b64.c")])
+    h2 = build_harness(ctx, "h_b64print", [os.path.join(VERIF, "harness/h_b64print.c")], flags=SAN + ["-w"])
+    n = 1500 if ctx.quick() else 30000
+    rc, o1, _ = sh([sys.executable, gen, str(n), str(ctx.seed)])
+    rc, o2, _ = sh([sys.executable, gen, "print", str(n // 3), str(ctx.seed)])
+    l1 = [l for l in o1.split("\n") if l]; l2 = [l for l in o2.split("\n") if l]
+    rc, c1, e1 = run_parallel(h1, l1, 8); rc, m1, _ = run_parallel(FMODEL, l1, 8)
+    rc, c2, e2 = run_parallel(h2, l2, 8); rc, m2, _ = run_parallel(FMODEL, l2, 8)
+    i1, c1, m1 = diff_streams(l1, c1, m1); i2, c2, m2 = diff_streams(l2, c2, m2)
+    # property on the implementation: encode (printer modes: padded rfc4648 / url) then the parser's field scanner
+    r = ctx.rng
+    srcs = [bytes(r.getrandbits(8) for _ in range(k)) for k in list(range(0, 40)) + [r.randint(40, 400) for _ in range(60)]]
+    encl = ["b64 enc %d %s" % (128 + u, s.hex() or "-") for s in srcs for u in (0, 1)]
+    rc, enc_out, e3 = run_parallel(h1, encl, 4)
+    parl = ["b64 parse %d %s" % (i % 2, (o.split(" ")[1] if len(o.split(" ")) > 1 else "-")) for i, o in enumerate(enc_out)]
+    rc, par_out, e4 = run_parallel(h1, parl, 4)
+    specbad = [(encl[i], enc_out[i], parl[i], par_out[i]) for i in range(len(encl))
+               if par_out[i] != "ok " + (srcs[i // 2].hex() or "-")]
+    if specbad:
+        b = specbad[0]
+        violation(ctx, "b64_spec_%d.json" % ctx.seed, {"kind": "property-fails-on-implementation", "why": "base64: the parser does not return the bytes the printer's encoder was given",
+                  "encode_line": b[0], "c_encode_output": b[1], "parse_line": b[2], "c_parse_output": b[3], "count": len(specbad)})
+    elif i1 or i2:
+        if i1: i = i1[0]; pay = {"op": l1[i][:2000], "c_output": c1[i][:2000], "model_output": m1[i][:2000]}
+        else: i = i2[0]; pay = {"op": l2[i][:2000], "c_output": c2[i][:2000], "model_output": m2[i][:2000]}
+        pay.update({"kind": "correspondence-broken", "engine": "base64", "count": len(i1) + len(i2), "stderr": (e1 + e2)[-1500:],
+                    "theorems_no_longer_tied": [t["name"] for t in ths if "base64" in t["name"].lower()]})
+        violation(ctx, "b64_corr_%d.json" % ctx.seed, pay, no_failing_input=True)
+    kinds = {}
+    for l in l1 + l2:
+        k = " ".join(l.split(" ")[:2]); kinds[k] = kinds.get(k, 0) + 1
+    return {"base64_lines": len(l1) + len(l2), "base64_ops": kinds, "base64_roundtrips_on_impl": len(encl), "base64_disagreements": len(i1) + len(i2)}
+
+
 def run(ctx, mutate=None, judge_extra=None):
     ths = proof_stage(ctx)
     if ths is None:
         finish(ctx, [])
+    b64cov = base64_stage(ctx, ths) if not (mutate or judge_extra) else {}
     flatcc, _ = build_flatcc(ctx)
     # C04 (mutated inputs) runs the deployed configuration: asserts compiled out, so that e.g. a duplicate key is the
     # parser's runtime error instead of the builder's `check(0, "table field already set")` abort
@@ -157,8 +196,9 @@ def run(ctx, mutate=None, judge_extra=None):
                 "struct roots) x value trees (boundary ints, finite floats incl. denormals/-0, strings with NUL, quotes, backslashes, raw high bytes) x 3 random "
                 "(printer flags, indent, parser flags) sets per case: generated printer -> text -> generated parser (input ends at a guard page) -> generated "
                 "verifier -> accessor-level dump of original and reparsed buffer (values; presence where flags preserve it) -> reprint identical; strict "
-                "text (no unquote/nonstrict, valid UTF-8) must load in Python's json module.",
-        "schemas": len(results), "printer_flag_histogram": pfh, "traces_validated_against_impl": nlines, "spec_oracle_failures": len(bad)})
+                "text (no unquote/nonstrict, valid UTF-8) must load in Python's json module. Base64: pbase64.h encode/decode (all modes, limits, all 256 byte values, "
+                "truncations, misplaced padding, whitespace), the parser's base64 field scanner and the printer's chunk loop under scripted flush points vs Base64.lean.",
+        **b64cov, "schemas": len(results), "printer_flag_histogram": pfh, "traces_validated_against_impl": nlines, "spec_oracle_failures": len(bad)})
     ctx.samples = [{"line": r["lines"][0][:400]} for r in results if r.get("lines")][:2]
     ctx.notes = ["NaN/Inf floats and unknown union codes are excluded as the property says", "value-level comparison; scalar presence is compared only implicitly through the reprint"]
     finish(ctx, ths)
